@@ -151,6 +151,14 @@ CHECKS.append({
     "technique": "Coq proof (soundness and reflexivity of the alpha-comparison of IR dumps) + translation validation of every export by re-reading the emitted text with the front end",
 })
 
+CHECKS.append({
+    "property_id": "C02",
+    "text": "Coq theorems for what is specific to the Metal exporter: on the usage fixpoint, a function receives a global as a trailing reference parameter exactly when the global is one Metal cannot express as a global and the function (transitively) reaches it; every argument appended to a call is a parameter of the caller; call and signature append the same sorted list; and for every function body, every aliasing of the argument variables and every store, the call through the generated trampoline leaves every variable of the caller as the HLSL copy-in / copy-out call does (with a witness that references alone differ under aliasing). The rest of the Metal text is compared with the HLSL text (validated against the typed IR by C01) token by token under explicit rules whose side conditions are facts computed from the IR independently of the exporter: threaded globals and their reachability per function, out / inout positions, default arguments, called functions, trampoline shape. Inputs: call graphs of every shape over functions reading and writing static / groupshared globals with out / inout / default parameters and namespaces, generated programs of the executable subset, repository sources.",
+    "design_ref": "DESIGN.md §4 C02",
+    "note": "Partial: the threading and trampoline theorems are about models; the agreement of the Metal text with the HLSL text is an oracle on the implementation, and intrinsics lowered by helpers are outside its rules. Two known findings (default arguments before threaded globals; two threaded globals with one short name).",
+    "technique": "Coq proof (global threading = reachability on the usage fixpoint; trampoline = copy-in/copy-out for all bodies and aliasings) + rule-based comparison of the Metal text with the C01-validated HLSL text against IR facts",
+})
+
 _claimed = {c["property_id"] for c in CHECKS}
 NOT_APPLICABLE = [
     {"property_id": p, "reason": "not yet claimed: model/theorems under construction (see DESIGN.md build order); no check registered until it passes on the unchanged tree"}
